@@ -218,11 +218,11 @@ class CallMixin:
         self.ctx.note_ty(ty)
         arr = self.ctx.fresh_term(z3.ArraySort(z3.IntSort(), z3.IntSort()), "rng")
         j = z3.Int("j!rng")
-        self.ctx.assume(z3.ForAll([j], z3.Select(arr, j) == lo + j, patterns=[z3.Select(arr, j)]))
+        self.ctx.assume(sorts.forall([j], z3.Select(arr, j) == lo + j, patterns=[z3.Select(arr, j)]))
         R = ty.mk(z3.simplify(z3.If(hi > lo, hi - lo, 0)), arr)
         E = self.ctx.fresh_term(TSet(TInt).sort(), "rngset")
         x = z3.Int("x!rng")
-        self.ctx.assume(z3.ForAll([x], z3.Select(E, x) == z3.And(lo <= x, x < hi), patterns=[z3.Select(E, x)]))
+        self.ctx.assume(sorts.forall([x], z3.Select(E, x) == z3.And(lo <= x, x < hi), patterns=[z3.Select(E, x)]))
         self.ctx.assume(ty.elems_fn()(R) == E)
         return SV(ty, R)
 
@@ -312,12 +312,12 @@ class CallMixin:
             rel = (a < b) if strict else (a <= b)
             if desc:
                 rel = (a > b) if strict else (a >= b)
-        return z3.ForAll([i, j], z3.Implies(z3.And(0 <= i, i < j, j < ty.len(L)), rel), patterns=[z3.MultiPattern(a, b)])
+        return sorts.forall([i, j], z3.Implies(z3.And(0 <= i, i < j, j < ty.len(L)), rel), patterns=[z3.MultiPattern(a, b)])
 
     def distinct(self, ty: TList, L):
         i, j = z3.Int("i!dis"), z3.Int("j!dis")
         a, b = z3.Select(ty.arr(L), i), z3.Select(ty.arr(L), j)
-        return z3.ForAll([i, j], z3.Implies(z3.And(0 <= i, i < j, j < ty.len(L)), a != b), patterns=[z3.MultiPattern(a, b)])
+        return sorts.forall([i, j], z3.Implies(z3.And(0 <= i, i < j, j < ty.len(L)), a != b), patterns=[z3.MultiPattern(a, b)])
 
     def enum_set(self, s: SV, ordered) -> SV:
         """A duplicate-free list enumerating set `s` (asc/desc/arbitrary)."""
@@ -369,7 +369,7 @@ class CallMixin:
         rng = z3.And(0 <= j, j < ty.len(it.t), *conds)
         if any_:
             return mk_bool(z3.Exists([j], z3.And(rng, body)))
-        return mk_bool(z3.ForAll([j], z3.Implies(rng, body)))
+        return mk_bool(sorts.forall([j], z3.Implies(rng, body)))
 
     def bi_sum(self, node):
         raise Unsupported("sum", node)
@@ -477,14 +477,14 @@ class CallMixin:
         later = z3.Int("l!dc")
         kl = z3.substitute(k.t, (j, later))
         is_last = z3.Not(z3.Exists([later], z3.And(jj < later, later < lty.len(it.t), kl == kk)))
-        self.ctx.assume(z3.ForAll([jj], z3.Implies(inr, z3.Select(dty.dom(D.t), kk)), patterns=[kk] if not z3.is_var(kk) and kk.num_args() > 0 else None))
-        self.ctx.assume(z3.ForAll([jj], z3.Implies(z3.And(inr, is_last), z3.Select(dty.val_(D.t), kk) == vv)))
+        self.ctx.assume(sorts.forall([jj], z3.Implies(inr, z3.Select(dty.dom(D.t), kk)), patterns=[kk] if not z3.is_var(kk) and kk.num_args() > 0 else None))
+        self.ctx.assume(sorts.forall([jj], z3.Implies(z3.And(inr, is_last), z3.Select(dty.val_(D.t), kk) == vv)))
         # every key in dom comes from some index
         wit = z3.Function(f"dcw!{id(node)}_{self.ctx.path_id}_{len(self.ctx.pc)}", k.ty.sort(), z3.IntSort())
         key = z3.Const("k!dc", k.ty.sort())
         kw = z3.substitute(k.t, (j, wit(key)))
         self.ctx.assume(
-            z3.ForAll([key], z3.Implies(z3.Select(dty.dom(D.t), key), z3.And(0 <= wit(key), wit(key) < lty.len(it.t), kw == key)), patterns=[z3.Select(dty.dom(D.t), key)])
+            sorts.forall([key], z3.Implies(z3.Select(dty.dom(D.t), key), z3.And(0 <= wit(key), wit(key) < lty.len(it.t), kw == key)), patterns=[z3.Select(dty.dom(D.t), key)])
         )
         return D
 
@@ -534,14 +534,14 @@ class CallMixin:
         n = lty.len(it.t)
         if not conds:
             arr = self.ctx.fresh_term(z3.ArraySort(z3.IntSort(), val.ty.sort()), "map")
-            self.ctx.assume(z3.ForAll([jj], z3.Implies(z3.And(0 <= jj, jj < n), z3.Select(arr, jj) == vj), patterns=[z3.Select(arr, jj)]))
+            self.ctx.assume(sorts.forall([jj], z3.Implies(z3.And(0 <= jj, jj < n), z3.Select(arr, jj) == vj), patterns=[z3.Select(arr, jj)]))
             R = rty.mk(n, arr)
             # membership: y in R <=> exists j. y = f(L[j])
             wit = z3.Function(f"mapw!{next(_wcount)}", val.ty.sort(), z3.IntSort())
             y = z3.Const("y!lc", val.ty.sort())
             vw = z3.substitute(val.t, (j, wit(y)))
             el = rty.elems_fn()(R)
-            self.ctx.assume(z3.ForAll([y], z3.Implies(z3.Select(el, y), z3.And(0 <= wit(y), wit(y) < n, vw == y)), patterns=[z3.Select(el, y)]))
+            self.ctx.assume(sorts.forall([y], z3.Implies(z3.Select(el, y), z3.And(0 <= wit(y), wit(y) < n, vw == y)), patterns=[z3.Select(el, y)]))
             return SV(rty, R)
         # filtered: src(k) strictly increasing, dst(j) inverse
         R = self.ctx.fresh(rty, "filt")
@@ -555,13 +555,13 @@ class CallMixin:
         c_src = z3.substitute(cond, (j, srcf(k)))
         self.ctx.assume(rl <= n)
         self.ctx.assume(
-            z3.ForAll([k], z3.Implies(z3.And(0 <= k, k < rl), z3.And(0 <= srcf(k), srcf(k) < n, c_src, z3.Select(ra, k) == v_src, dstf(srcf(k)) == k)), patterns=[z3.Select(ra, k)])
+            sorts.forall([k], z3.Implies(z3.And(0 <= k, k < rl), z3.And(0 <= srcf(k), srcf(k) < n, c_src, z3.Select(ra, k) == v_src, dstf(srcf(k)) == k)), patterns=[z3.Select(ra, k)])
         )
         self.ctx.assume(
-            z3.ForAll([k, k2], z3.Implies(z3.And(0 <= k, k < k2, k2 < rl), srcf(k) < srcf(k2)), patterns=[z3.MultiPattern(srcf(k), srcf(k2))])
+            sorts.forall([k, k2], z3.Implies(z3.And(0 <= k, k < k2, k2 < rl), srcf(k) < srcf(k2)), patterns=[z3.MultiPattern(srcf(k), srcf(k2))])
         )
         self.ctx.assume(
-            z3.ForAll([jj], z3.Implies(z3.And(0 <= jj, jj < n, cj), z3.And(0 <= dstf(jj), dstf(jj) < rl, srcf(dstf(jj)) == jj, z3.Select(ra, dstf(jj)) == vj)), patterns=[z3.Select(lty.arr(it.t), jj)])
+            sorts.forall([jj], z3.Implies(z3.And(0 <= jj, jj < n, cj), z3.And(0 <= dstf(jj), dstf(jj) < rl, srcf(dstf(jj)) == jj, z3.Select(ra, dstf(jj)) == vj)), patterns=[z3.Select(lty.arr(it.t), jj)])
         )
         return R
 
@@ -652,7 +652,7 @@ class CallMixin:
             r = self.ctx.fresh_term(z3.IntSort(), "idx")
             j = z3.Int("j!idx")
             self.ctx.assume(z3.And(0 <= r, r < ty.len(base.t), z3.Select(ty.arr(base.t), r) == x.t))
-            self.ctx.assume(z3.ForAll([j], z3.Implies(z3.And(0 <= j, j < r), z3.Select(ty.arr(base.t), j) != x.t)))
+            self.ctx.assume(sorts.forall([j], z3.Implies(z3.And(0 <= j, j < r), z3.Select(ty.arr(base.t), j) != x.t)))
             return SV(TInt, r)
         if attr == "copy":
             return SV(base.ty, base.t)
@@ -669,7 +669,7 @@ class CallMixin:
         arr = self.ctx.fresh_term(z3.ArraySort(z3.IntSort(), ty.elem.sort()), "del")
         j = z3.Int("j!del")
         self.ctx.assume(
-            z3.ForAll([j], z3.Select(arr, j) == z3.If(j < i, z3.Select(ty.arr(base.t), j), z3.Select(ty.arr(base.t), j + 1)), patterns=[z3.Select(arr, j)])
+            sorts.forall([j], z3.Select(arr, j) == z3.If(j < i, z3.Select(ty.arr(base.t), j), z3.Select(ty.arr(base.t), j + 1)), patterns=[z3.Select(arr, j)])
         )
         R = ty.mk(z3.simplify(ln - 1), arr)
         el = ty.elems_fn()
@@ -874,7 +874,7 @@ class CallMixin:
             body = self.truth(self.eval(lam.body), lam.body)
         finally:
             self.ctx.locals = saved
-        return mk_bool(z3.ForAll(bvs, body) if forall else z3.Exists(bvs, body))
+        return mk_bool(sorts.forall(bvs, body) if forall else z3.Exists(bvs, body))
 
     def spec_forall(self, node):
         return self._quant(node, True)
